@@ -101,6 +101,13 @@ def gate {F : Type} (alg : FloatAlg F) (x : F) : Except Err F :=
   else if alg.isInf x then .error .numberOverflow
   else .ok x
 
+/-- The arms of `check_number_value` as the model `gate` reads them (category of
+    `f64::classify` ↦ outcome); compared with the arms extracted from the source
+    (`NumberSites.gateArms`) in RsjProps/C06.lean. -/
+def gateSpec : List (String × String) :=
+  [("Nan", "NumberNan"), ("Infinite", "NumberOverflow"), ("Zero", "ok"), ("Subnormal", "ok"),
+   ("Normal", "ok")]
+
 /-- `if !number.is_finite() { return Err(NumberOverflow) }` -/
 def finiteCheck {F : Type} (alg : FloatAlg F) (x : F) : Except Err F :=
   if !alg.isNaN x && !alg.isInf x then .ok x else .error .numberOverflow
